@@ -74,6 +74,35 @@ def mapops_call(sz, kind, mis, mask_ids, sd, md, ops):
     for i in mask_ids: mask |= 1 << i
     return 'run_mapops<Sym%d,%d,%d,0x%x,IX<%s>,IX<%s>>("%s");' % (sz, KIND[kind], mis, mask, ",".join(map(str, sd)), ",".join(map(str, md)), ops)
 
+
+def gen_wide_ops(rng, names, length):
+    """names: the three shapes (0 owning, 1 map, 2 map).  Every op kind the shape admits."""
+    ops = []
+    for _ in range(length):
+        k = rng.randrange(3); d = names[k]
+        kinds = ["ss", "fill", "eadd", "wi", "vws", "vws", "vwt", "vwt", "red"]
+        if len(d) == 2: kinds += ["mm", "mm", "mx"] + (["tr", "tr"] if d[0] == d[1] else [])
+        kind = rng.choice(kinds)
+        if kind == "wi":
+            idx = [rng.randrange(-e, e) for e in d]
+            ops.append("%d:wi:%s" % (k, ".".join(("n%d" % -i) if i < 0 else str(i) for i in idx)))
+        elif kind in ("vws", "vwt"):
+            axs = []
+            for e in d:
+                st = rng.choice([1, 1, 2, 3]); f = rng.randrange(e); ext = rng.randint(1, (e - 1 - f) // st + 1)
+                axs.append("%d-%d-%d" % (f, st, ext))
+            ops.append("%d:vw%s%s:%s" % (k, rng.choice(["set", "add", "sub", "mul"]), kind[2], ".".join(axs)))
+        elif kind == "mm": ops.append("%d:mm%s:0" % (k, rng.choice(["set", "add", "sub", "mul"])))
+        else: ops.append("%d:%s:0" % (k, kind))
+    return ",".join(ops)
+
+def mapwide_call(sz, sd, md, gd, ops):
+    ix = lambda d: "IX<%s>" % ",".join(map(str, d))
+    return 'run_mapwide<Sym%d,%s,%s,%s>("%s");' % (sz, ix(sd), ix(md), ix(gd), ops)
+
+WIDE_SHAPES = [((4, 5), (20,), (5, 4)), ((3, 3), (3, 3), (9,)), ((2, 3, 4), (4, 6), (24,)), ((4, 4), (2, 8), (4, 4)), ((6,), (2, 3), (3, 2)),
+               ((2, 2, 3), (3, 4), (2, 6)), ((5, 5), (25,), (5, 5)), ((3, 4), (4, 3), (2, 3, 2)), ((8,), (2, 4), (2, 2, 2)), ((2, 9), (3, 6), (18,))]
+
 def lanes(isa, sz):
     return max({"scalar": sz, "sse2": 16, "sse42": 16, "avx": 32, "avx2": 32, "avx512": 64}[isa] // sz, 1)
 
@@ -163,6 +192,11 @@ def sym_groups(tier, seed):
                     calls.append(mapops_call(sz, kind, mis, ids, sd, md, gen_ops(rng, sd, md, rng.randint(1, 6), ids)))
             for ch in symrun.chunk(calls, MAPOPS_TU):      # 4 consecutive calls share one instantiation
                 groups.append({"key": "%s/sz%d" % (isa, sz), "header": "map_sym.h", "isa": isa, "calls": ch})
+            # ---- enlarged alphabet over three names of one storage (views, scalar assignment, reductions, staged right-hand sides)
+            if isa != "scalar":
+                for sh in (rng.sample(WIDE_SHAPES, 2) if quick else WIDE_SHAPES):
+                    calls = [mapwide_call(sz, sh[0], sh[1], sh[2], gen_wide_ops(rng, sh, rng.randint(3, 9))) for _ in range(4 if quick else 8)]
+                    groups.append({"key": "%s/sz%d/wide" % (isa, sz), "header": "map_sym2.h", "isa": isa, "calls": calls})
     return groups
 
 def rnested(dims, k0=1):
@@ -238,7 +272,7 @@ def _only(fn):
 
 def run(tier, seed):
     return flow.standard_run(
-        PID, tier, seed, "Fastor.C20.map_is_alias", "FastorModel.Model.MapAlias / FastorModel.Model.Layout", _only(sym_groups), _only(real_groups),
+        PID, tier, seed, "Fastor.C20.map_is_alias_wide", "FastorModel.Model.MapAlias / MapAliasWide / Layout", _only(sym_groups), _only(real_groups),
         assumptions=["vector primitives are lane-wise (C08); element-wise expression evaluation is C02's model (imported, with is_aligned = false for maps)",
                      "operations through maps that are modelled: element write, fill, compound assignment with a scalar / a tensor / an expression, plain assignment of an "
                      "element-wise expression, assignment from the other name, same-type copy assignment, reading into an owning tensor; views, reductions, scalar "
@@ -255,6 +289,9 @@ def run(tier, seed):
 def sym_call_of(inp):
     d = symrun.kv(inp)
     sz = int(d["sz"])
+    if inp.startswith("mapwide"):
+        tup = lambda k: tuple(int(x) for x in d[k].split("x"))
+        return {"key": "replay", "header": "map_sym2.h", "isa": d["cfg"], "calls": [mapwide_call(sz, tup("sdims"), tup("mdims"), tup("gdims"), d["ops"])]}
     if inp.startswith("layout"):
         dims = tuple(int(x) for x in d["dims"].split("x"))
         call = ilist_call(sz, dims) if d["fn"] == "ilist" else layout_call(sz, d["fn"], d["src"], dims)
